@@ -66,7 +66,7 @@ CHECKS = {
              "with precomputed frames, STREAMINFO, metadata, frames, frame headers, subframes, residuals) and EVERY operation index k of its "
              "write, the write is repeated on a user-defined sink that fails at operation k, in four flavours (required-methods-only or "
              "all-methods-overridden sink; failing from k on, or only at k). Oracles: no panic; the call returns the sink's error; the bits "
-             "accepted before the failure are a prefix of the clean bitstream; a clean write on the same thread afterwards yields the clean bytes. "
+             "accepted before the failure are a prefix of the clean bitstream; the same failing write repeated on the same thread again returns the error and again accepts only a prefix (the property holds for every failing write, not only the first on a thread). "
              "The thorough tier repeats it on a larger corpus and on a build with debug assertions and overflow checks.",
         design_ref="DESIGN.md section 4.3",
         note="Complete over k for the corpus; the corpus itself (48 / 400 small streams, every subframe kind and stereo mode, 8..24 bits) is a sample of all streams. "
